@@ -21,6 +21,13 @@ CHECKS = {
         technique="contract-based deductive verification (ast->z3 VCs, induction lemmas), counter-model replay on real code",
         design_ref="DESIGN 3 C30",
     ),
+    "C10": dict(
+        level="proof",
+        text="Deductive for the candidate clauses: _factorize (result = exactly the divisors, ascending), _divisors, and get_possible_factor_sizes in both modes (perfect: exactly the multiples of inner dividing outer; imperfect: within [1, outer] and, for every tile count reachable by a multiple of inner, the smallest shape with that count) are proved for every size from the real source with loop invariants; nonlinear integer operations are abstracted to uninterpreted symbols in function VCs and every arithmetic fact is a separately proved lemma VC. The mapspace-count clause (_count_factorizations == brute-force chain count) is NOT proved: it is covered only by the bounded cross-check (n < 14 quick / n < 40 thorough, all imperfection patterns of length <= 4, explicit tuple enumeration) and is labelled bounded in the evidence.",
+        note=_TB + "A-FLOATDIV (ceil/round/sqrt of float quotients are exact for the sizes involved); numpy array(sorted(.)) and ndarray*int elementwise; coarseness fixed to 1 (the property's quantifier); _count_factorizations bounded only.",
+        technique="contract-based deductive verification (ast->z3 VCs, loop invariants, lemma VCs for nonlinear arithmetic); bounded run-time cross-check for the counter clause",
+        design_ref="DESIGN 3 C10",
+    ),
 }
 for k in CHECKS:
     PENDING.pop(k, None)
